@@ -21,6 +21,8 @@ SCENARIOS = {
     'receive-during-loss': (['loss', 'reconnect', 'arrive'], ['r']),
     # the server greets from its own connect handler: the event is dispatched while connect() is still running
     'greeting-during-connect': (['arrive'], ['r', 'r']),
+    # 'R' = receive() without a timeout: the connection ends for good while (or before) it waits
+    'final-while-blocked': (['arrive', 'final'], ['R', 'R']),
 }
 
 
@@ -35,6 +37,7 @@ class Env:
         self.up = True
         self.greeting = False
         self.greeted = False
+        self.no_timeout = False   # the consumer uses receive() without a timeout
 
 
 class FakeClient:
@@ -97,7 +100,8 @@ def verdict(env, got, arrivals, buffer_left, stuck, excs, trace):
     if excs:
         return Fail('simple:exception:%s' % type(excs[0]).__name__, repr(excs))
     if stuck:
-        return Fail('simple:stuck', 'a thread/task never finished; trace %r' % (trace[-8:],))
+        return Fail('simple:stuck' + (':receive-without-timeout-after-the-end' if env.final and env.no_timeout else ''),
+                    'a thread/task never finished; trace %r' % (trace[-8:],))
     evs = [g for g in got if isinstance(g, list)]
     exp = [['ev', i] for i in range(arrivals)]
     if evs != exp[:len(evs)]:
@@ -119,6 +123,7 @@ def h_threads(t, part):
     prod, cons = SCENARIOS[part['scenario']]
     with notrace():
         env = Env()
+        env.no_timeout = 'R' in cons
         FakeClient.env = env
         sched = baton.Sched(lambda n: t.choice(n), max_decisions=part.get('max_decisions', 60))
 
@@ -198,7 +203,9 @@ def h_threads(t, part):
         def consumer():
             for a in cons:
                 try:
-                    if a == 'r':
+                    if a == 'R':
+                        got.append(c.receive())
+                    elif a == 'r':
                         got.append(c.receive(timeout=1))
                     elif a == 'c':
                         c.call('hello', 1, timeout=1)
@@ -249,6 +256,7 @@ def h_async(t, part):
     prod, cons = SCENARIOS[part['scenario']]
     with notrace():
         env = Env()
+        env.no_timeout = 'R' in cons
         FakeClient.env = env
         miniloop.install_all()
         loop = miniloop.new_loop(None, 400)
@@ -266,7 +274,12 @@ def h_async(t, part):
 
         async def producer():
             for a in prod:
-                await miniloop.sleep(0)
+                if env.no_timeout:
+                    # (without timed waits the FIFO loop has a single schedule: here the producer's steps are I/O
+                    # completions that the scheduler places wherever it likes)
+                    await miniloop.checkpoint('producer step')
+                else:
+                    await miniloop.sleep(0)
                 if a == 'arrive':
                     i = narr[0]
                     narr[0] += 1
@@ -287,7 +300,9 @@ def h_async(t, part):
         async def consumer():
             for a in cons:
                 try:
-                    if a == 'r':
+                    if a == 'R':
+                        got.append(await c.receive())
+                    elif a == 'r':
                         got.append(await c.receive(timeout=1))
                     elif a == 'c':
                         await c.call('hello', 1, timeout=1)
